@@ -13,6 +13,7 @@
    EventReceiver::poll_read by copy_chunked_async (65528 in the code). *)
 From SV Require Import Base.Bytes Spec.Sse Model.Event Proofs.EventP.
 From SV Require Import Generated.SourceParams Tie.EventTie.
+From SV Require Model.Chunked Proofs.EventChunkP.
 
 (* C11.1  block_parses_back: for every event the constructors can build (type without CR/LF):
    parsing its block followed by the blank line dispatches exactly one event, with its type and
@@ -216,6 +217,13 @@ Proof. exact event_formats_tie. Qed.
 Theorem c11_translation_complete : (src_problems_event_queue + src_problems_event_fmt = 0)%nat.
 Proof. exact event_translated. Qed.
 
+(* C11.chunk  the chunk framing of the event-stream model is the chunk framing of the chunked-encoder model
+   of C07 (whose read window is re-read from src/util.rs on every run): C07's theorems about chunk_of --
+   size line correct, decodes back, never reads as the terminating chunk -- hold of every event block *)
+Theorem c11_chunk_framing_is_the_chunked_encoders :
+  forall p, encode_piece p = Chunked.chunk_of p /\ terminator = Chunked.terminator.
+Proof. exact (fun p => conj (EventChunkP.encode_piece_is_chunk_of p) EventChunkP.terminator_eq). Qed.
+
 Print Assumptions c11_block_parses_back.
 Print Assumptions c11_no_injection.
 Print Assumptions c11_stream_parses_back.
@@ -242,3 +250,4 @@ Print Assumptions c11_oversize_event_lost_refuted.
 Print Assumptions c11_source_queue_capacity.
 Print Assumptions c11_source_event_formats.
 Print Assumptions c11_translation_complete.
+Print Assumptions c11_chunk_framing_is_the_chunked_encoders.
